@@ -13,7 +13,7 @@ pub fn dispatch(line: &str) -> String {
     let r = std::panic::catch_unwind(|| match toks[0] {
         "bs" => bits::run(&toks[1..]),
         "lex" => lexs::run(&toks[1..]),
-        "xs" => xs::run(&toks[1..]),
+        "xs" | "xf" => xs::run(&toks[1..]),
         other => format!("UNKNOWN-KIND {}", other),
     });
     match r {
